@@ -106,8 +106,11 @@ macro_rules! create_window_processor {
     ($window_iri:expr, $query:expr, $query_execution_mode:expr,
      $r2r_store:expr, $has_joins:expr, $cross_window_enabled:expr,
      $window_result_sender:expr, $r2s_consumer_func:expr,
-     $seed_registry:expr, $latest_hybrid_results:expr) => {{
-        let mut prev_window_triples: Vec<I> = Vec::new();
+     $seed_registry:expr, $latest_hybrid_results:expr, $loaded_window_triples:expr) => {{
+        // The R2R store is shared by all windows: whichever window fired last
+        // has its raw items loaded, and every firing evicts them first so a
+        // window block never matches items of another window's stream.
+        let loaded_window_triples: Arc<Mutex<Vec<I>>> = $loaded_window_triples;
         move |content: ContentContainer<I>| {
             debug!(
                 "Processing window {} with query: {:?} using {:?} execution",
@@ -165,8 +168,9 @@ macro_rules! create_window_processor {
                 }
             }
 
-            // Evict triples from the previous firing of this window
-            for t in &prev_window_triples {
+            // Evict the raw items loaded by the previous firing (of any window)
+            let mut prev_window_triples = loaded_window_triples.lock().unwrap();
+            for t in prev_window_triples.iter() {
                 store.remove(t);
             }
             prev_window_triples.clear();
@@ -176,6 +180,7 @@ macro_rules! create_window_processor {
                 prev_window_triples.push(t.clone());
                 store.add(t);
             }
+            drop(prev_window_triples);
 
             // Run forward-chaining inference to materialise derived facts
             store.materialize();
@@ -519,6 +524,8 @@ where
             || self.windows.len() > 1
             || self.rsp_query_plan.static_data_plan.is_some();
 
+        let loaded_window_triples: Arc<Mutex<Vec<I>>> = Arc::new(Mutex::new(Vec::new()));
+
         for (window_idx, window) in self.windows.iter_mut().enumerate() {
             let query = self.rsp_query_plan.window_plans[window_idx].clone();
             let window_iri = self.window_configs[window_idx].window_iri.clone();
@@ -544,7 +551,7 @@ where
             };
 
             // Create processor using macro
-            let mut processor = create_window_processor!(
+            let processor = create_window_processor!(
                 window_iri,
                 query,
                 query_execution_mode,
@@ -554,7 +561,8 @@ where
                 window_result_sender,
                 r2s_consumer_func,
                 seed_registry,
-                latest_hybrid_results
+                latest_hybrid_results,
+                Arc::clone(&loaded_window_triples)
             );
 
             // Register based on mode
